@@ -361,7 +361,8 @@ def run(rep, tier):
     kp = prog.fn(nx.N + "::kml::plan")
     uses = [1 for b in kp.live_blocks() for st in kp.stmts(b) if st[0] == "A" for o in core._rvalue_operands(st[2]) if ((o.get("k") or {}).get("def") or "").endswith("::PLAN_PASSES")]
     uses += [1 for b in kp.live_blocks() if kp.term(b)["k"] == "call" for o in kp.term(b)["args"] if ((o.get("k") or {}).get("def") or "").endswith("::PLAN_PASSES")]
-    rep.ob("R17.7", "plan-iterates-the-pass-count|kml::plan", bool(uses) and bool(kp.calls_named(r"kml::clauses::plan_pass$")) and bool(kp.calls_named(r"kml::clauses::apply$")),
+    rep.ob("R17.7", "plan-iterates-the-pass-count|kml::plan", bool(uses) and any(g_.calls_named(r"kml::clauses::plan_pass$") for g_ in [kp] + list(prog.closures_of(kp)))
+           and any(g_.calls_named(r"kml::clauses::apply$") for g_ in [kp] + list(prog.closures_of(kp))),
            "kml::plan loops over 0..PLAN_PASSES and applies the clauses plan_pass assigns to each pass", kp.file + ":%d" % kp.line)
 
     # ------------------------------------------------------------------ R17.4
